@@ -60,6 +60,29 @@ def crafted_decision_triples():
                 else: out.append((nb(b, {}), nb(l, {}), nb(r, {})))
     return out
 
+def union_line_triples():
+    """each side edits ONE line of the same multi-line string in place (different lines; every ordered pair, line 0 included):
+    under the strategy `union` the whole string diffs of both sides travel in one decision, whose path is derived from the
+    patch keys of the two diffs; the string is a cell source, a stream text or a metadata value"""
+    out = []
+    n = 4
+    # lines of very different lengths, edited near their END: a character diff computed for one line and filed under another
+    # line's number is then out of bounds there
+    lines = ['result = compute(alpha, beta, gamma, delta, epsilon)  # step zero\n', 'mid = 1\n', 'value_two = combine(result, mid)\n', 'done\n']
+    def edit(i, w): ls = list(lines); ls[i] = ls[i].rstrip('\n') + ' ' + w + '\n'; return ''.join(ls)
+    def nb(src, txt, note):
+        return {'cells': [{'cell_type': 'code', 'execution_count': 1, 'metadata': {'note': note},
+                           'outputs': [{'output_type': 'stream', 'name': 'stdout', 'text': txt}], 'source': src}],
+                'metadata': {}, 'nbformat': 4, 'nbformat_minor': 4}
+    t = ''.join(lines)
+    for i in range(n):
+        for j in range(n):
+            if i == j: continue
+            out.append((nb(t, 'x\n', 'k'), nb(edit(i, 'mine'), 'x\n', 'k'), nb(edit(j, 'theirs'), 'x\n', 'k')))
+            if (i + j) % 2: out.append((nb('s\n', t, 'k'), nb('s\n', edit(i, 'mine'), 'k'), nb('s\n', edit(j, 'theirs'), 'k')))
+            else: out.append((nb('s\n', 'x\n', t), nb('s\n', 'x\n', edit(i, 'mine')), nb('s\n', 'x\n', edit(j, 'theirs'))))
+    return out
+
 def crafted_output_triples():
     """both sides change several mime types / the metadata of the SAME output (decisions that share two or more path
     levels), merged under output strategies that collect and re-combine the diffs (remove, clear-all, inline-outputs)"""
@@ -108,7 +131,9 @@ def run(tier, seed):
              + [{'op': 'merge_decisions', 'base': x, 'local': y, 'remote': z, 'strategy': s}
                 for (x, y, z) in triples for s in ('mergetool', 'inline')]
              + [{'op': 'merge_decisions', 'base': x, 'local': y, 'remote': z, 'strategy': 'inline', 'output_strategy': os_}
-                for (x, y, z) in crafted_output_triples() + triples[:(20 if tier == 'quick' else 200)] for os_ in ('remove', 'clear-all', 'inline-outputs', 'use-local')])
+                for (x, y, z) in crafted_output_triples() + triples[:(20 if tier == 'quick' else 200)] for os_ in ('remove', 'clear-all', 'inline-outputs', 'use-local')]
+             + [{'op': 'merge_decisions', 'base': x, 'local': y, 'remote': z, 'strategy': s}
+                for (x, y, z) in union_line_triples() for s in ('union', 'mergetool')])
     results = core.run_impl(tasks, shards=14)
     nontrivial = set(); counts = {'generic': 0, 'notebook': 0, 'decision': 0}; merge_errors = 0
     checker_lines = []; checker_meta = []
